@@ -72,6 +72,16 @@ impl Out {
     pub fn new() -> Self { Out { w: std::io::BufWriter::new(std::io::stdout()) } }
     /// exactly one line per case, flushed, so the supervisor can tell which case killed a worker
     pub fn emit(&mut self, v: &Value) {
+        // TLC's Json module cannot read `null`: an absent piece of data is written as {"none": 1}
+        fn scrub(v: &Value) -> Value {
+            match v {
+                Value::Null => json!({"none": 1}),
+                Value::Array(a) => Value::Array(a.iter().map(scrub).collect()),
+                Value::Object(o) => Value::Object(o.iter().map(|(k, x)| (k.clone(), scrub(x))).collect()),
+                o => o.clone(),
+            }
+        }
+        let v = &scrub(v);
         serde_json::to_writer(&mut self.w, v).unwrap();
         self.w.write_all(b"\n").unwrap();
         self.w.flush().unwrap();
